@@ -13,7 +13,7 @@ Refs  == { <<"$","1">>, <<"$","{","1","}">>, <<"$","2">>, <<"$","{","2","}">>, <
            <<"$","0">>, <<"$","1","0">>, <<"$","{","1","0","}">> }
 Pres  == { <<>>, <<"a">>, <<"-",">">> }
 Posts == { <<>>, <<"b">>, <<".","x">> }
-Ctxs  == {"bare", "dq", "sq", "esc"}
+Ctxs  == {"bare", "dq", "sq", "esc", "dqesc"}
 Nbs   == { <<"a","\\",";","b">>, <<"'","q",";","r","'">>, <<"\"","x"," ","y","\"">>, <<"\\","&","\\","&">>, <<"\\","'">>,
            <<"a","\\"," ","b">>, <<"\\","\\">> }
 NbWord(n) == CASE n = <<"a","\\",";","b">> -> << <<"a","bare">>, <<";","esc">>, <<"b","bare">> >>
@@ -43,6 +43,7 @@ Word == CASE ctx = "bare" -> Core
           [] ctx = "dq"   -> <<"\"">> \o Core \o <<"\"">>
           [] ctx = "sq"   -> <<"'">> \o Core \o <<"'">>
           [] ctx = "esc"  -> pre \o <<"\\">> \o ref \o post
+          [] ctx = "dqesc" -> <<"\"">> \o pre \o <<"\\">> \o ref \o post \o <<"\"">>
 Line == <<"v","p","a"," ">> \o nb \o <<" ">> \o Word \o <<" ","z">>
 
 \* the value the reference stands for
@@ -59,6 +60,7 @@ ExpWords ==
   CASE ctx = "sq"  -> << Tag(Core, "sq") >>
     [] ctx = "esc" -> << B(pre) \o << <<"$", "esc">> >> \o B(Tail(ref)) \o B(post) >>
     [] ctx = "dq"  -> << Tag(pre \o Val \o post, "dq") >>
+    [] ctx = "dqesc" -> << Tag(Core, "dq") >>            \* the escaped $ is literal text inside the double quotes
     [] OTHER -> IF IsAt
                 THEN LET ps == SelectSeq(<< pre \o v1, v2 \o post >>, LAMBDA t : t # <<>>) IN [i \in 1..Len(ps) |-> B(ps[i])]
                 ELSE IF pre \o Val \o post = <<>> THEN <<>> ELSE << B(pre \o Val \o post) >>
